@@ -1090,7 +1090,7 @@ IMPORTS_PC = "From HS Require Import Base.Prelude C16.Model C16.ModelPC."
 
 
 def gen_pc(rng):
-    cap = rng.randint(1, 3)
+    cap = rng.choice([1, 2, 3, 3, 4, 6])      # (room for read-ahead next to dirty pages)
     ra = rng.choice([0, 0, 1, 2])
     lat = dict(r=rng.choice([3, 4]), w=rng.choice([5, 6, 9]))
     style = rng.choice(["sequential", "overlap", "overlap"])
